@@ -133,13 +133,14 @@ Definition ans_eq (a b : FM.answer) : Prop :=
   | FM.AField x, FM.AField y => option_map nfd x = option_map nfd y
   | FM.ANames (Some x), FM.ANames (Some y) => forall n, In n x <-> In n y
   | FM.AInputs (Some x), FM.AInputs (Some y) => alist_eq x y
+  | FM.AFields (Some x), FM.AFields (Some y) => forall p, In p (mapv nfd x) <-> In p (mapv nfd y)
   | FM.ADirs x, FM.ADirs y => dirs_eq x y
   | _, _ => a = b
   end.
 
 Lemma ans_eq_refl a : ans_eq a a.
 Proof.
-  destruct a as [h| |k|f|[l|]|l|[l|]|b|l]; simpl; auto; try tauto.
+  destruct a as [h| |k|f|[l|]|[l|]|[l|]|b|l]; simpl; auto; try tauto.
   - apply alist_eq_refl.
   - apply alist_eq_refl.
 Qed.
@@ -343,6 +344,92 @@ Section AskSim.
       + exfalso. assert (H' : option_map (sort_by fst) (@None (list (FM.name * FM.sty))) = option_map (sort_by fst) (Some b))
           by (rewrite <- Ea, <- Eb; exact H). discriminate H'.
       + apply alist_eq_refl.
+  Qed.
+
+  (** introspection's own listings: types, __type(name:), fields, interfaces, possibleTypes,
+      directives *)
+  Lemma ptrs_all X G l : all_visible X G -> FM.ptrs_within X G l = l.
+  Proof.
+    intro Hv. unfold FM.ptrs_within. induction l as [|n r IH]; simpl; auto.
+    assert (FM.subset (FM.req_of X n) G = true) as ->.
+    { unfold FM.req_of. destruct (FM.lookup X n) as [t|] eqn:E; [|reflexivity].
+      apply (Hv n t). apply lookup_types. exact E. }
+    rewrite IH. reflexivity.
+  Qed.
+
+  Lemma types_names X G n : NoDup (map fst (FM.types X)) -> all_visible X G ->
+    In n (FM.names_within G (FM.types X)) <-> exists t, FM.lookup X n = Some t.
+  Proof.
+    intros Hnd Hv. unfold FM.names_within. rewrite in_map_iff. split.
+    - intros [[n' t] [E H]]. simpl in E. subst n'. apply filter_In in H as [H _].
+      exists t. unfold FM.lookup. rewrite assoc_lookup. apply in_lookup; auto.
+    - intros [t H]. exists (n, t). split; auto. apply lookup_types in H. apply filter_In. split; auto.
+      simpl. apply (Hv n t H).
+  Qed.
+
+  Lemma nfd_dep fd : FM.f_dep (nfd fd) = FM.f_dep fd.
+  Proof. reflexivity. Qed.
+
+  Lemma fields_listing G (fs : list (FM.name * FM.field_def)) incl p :
+    (forall nf, In nf fs -> FM.subset (FM.f_req (snd nf)) G = true) ->
+    In p (mapv nfd (filter (fun nf => (negb (FM.f_dep (snd nf)) || incl) && FM.subset (FM.f_req (snd nf)) G) fs)) <->
+    In p (mapv nfd fs) /\ (negb (FM.f_dep (snd p)) || incl) = true.
+  Proof.
+    intro Hv. destruct p as [k y]. rewrite !in_mapv. split.
+    - intros [x [Hx ->]]. apply filter_In in Hx as [Hx Hp]. apply andb_true_iff in Hp as [Hp _].
+      split; [exists x; auto | simpl; exact Hp].
+    - intros [[x [Hx ->]] Hp]. exists x. split; auto. apply filter_In. split; auto.
+      simpl in Hp. simpl. apply andb_true_iff. split; [exact Hp | exact (Hv (k, x) Hx)].
+  Qed.
+
+  Theorem ask_sim_intro q : FM.in_view_introspection q = true ->
+    ans_eq (FM.ask FM.fixed A GA q) (FM.ask FM.fixed B GB q).
+  Proof.
+    destruct (FM.in_view_validator q || FM.in_view_executor q) eqn:Ev; [intros _; apply ask_sim; exact Ev|].
+    destruct q; intro Hq; try discriminate Hq; try discriminate Ev; clear Hq Ev; cbn [FM.ask].
+    - (* QIntroTypes *)
+      intro n. rewrite (types_names A GA n (fs_nodup_a A B Hsim) HvA), (types_names B GB n (fs_nodup_b A B Hsim) HvB).
+      pose proof (lk n) as H.
+      destruct (FM.lookup A n) as [ta|], (FM.lookup B n) as [tb|]; try contradiction.
+      + split; intros _; eexists; reflexivity.
+      + split; intros [t E]; discriminate.
+    - (* QIntroType *)
+      pose proof (lk n) as H.
+      destruct (FM.lookup A n) as [ta|], (FM.lookup B n) as [tb|]; try contradiction; try reflexivity.
+      destruct H as [_ [-> ->]]. reflexivity.
+    - (* QIntroFields *)
+      pose proof (lk t) as H.
+      destruct (FM.lookup A t) as [ta|] eqn:Ea, (FM.lookup B t) as [tb|] eqn:Eb; try contradiction; simpl; auto.
+      destruct H as [H _].
+      pose proof (proj2 (HvA t ta (lookup_types A t ta Ea))) as VA.
+      pose proof (proj2 (HvB t tb (lookup_types B t tb Eb))) as VB.
+      destruct ta, tb; simpl in H; try contradiction; simpl in *; auto.
+      + destruct H as [[_ H] _]. intro p. rewrite (fields_listing GA _ incl_dep p VA), (fields_listing GB _ incl_dep p VB).
+        rewrite (H p). tauto.
+      + destruct H as [_ H]. intro p. rewrite (fields_listing GA _ incl_dep p VA), (fields_listing GB _ incl_dep p VB).
+        rewrite (H p). tauto.
+    - (* QIntroInterfaces *)
+      pose proof (lk t) as H.
+      destruct (FM.lookup A t) as [ta|], (FM.lookup B t) as [tb|]; try contradiction; simpl; auto.
+      destruct H as [H _].
+      destruct ta, tb; simpl in H; try contradiction; simpl; auto.
+      destruct H as [_ ->]. rewrite (ptrs_all A GA _ HvA), (ptrs_all B GB _ HvB). intro n. tauto.
+    - (* QIntroPossible *)
+      pose proof (lk t) as H.
+      destruct (FM.lookup A t) as [ta|], (FM.lookup B t) as [tb|]; try contradiction; simpl; auto.
+      destruct H as [H _].
+      destruct ta, tb; simpl in H; try contradiction; simpl; auto.
+      + intro n. apply impls_sim.
+      + subst. rewrite (ptrs_all A GA _ HvA), (ptrs_all B GB _ HvB). intro n. tauto.
+    - (* QDirectives *)
+      exact (fs_dirs A B Hsim).
+  Qed.
+
+  (** hence every lookup of all three views *)
+  Theorem ask_sim_all q : ans_eq (FM.ask FM.fixed A GA q) (FM.ask FM.fixed B GB q).
+  Proof.
+    destruct (FM.in_view_introspection q) eqn:Ei; [apply ask_sim_intro; exact Ei|].
+    apply ask_sim. destruct q; try discriminate Ei; reflexivity.
   Qed.
 End AskSim.
 
@@ -793,6 +880,31 @@ Proof.
   exists R. split; [exact HR|]. intros G q Hq Hh.
   rewrite (FP.view_erase_eq (to_feat (registered S)) F F q Hok (FP.subset_refl F) Hh).
   apply ask_sim; auto.
+  - eapply fsim_trans.
+    + apply fsim_of_canon; [| apply nodup_names_erase | exact HC].
+      apply (nodup_names_canon R (erase S F) HC). apply nodup_names_erase.
+    + apply fsim_sym. apply erase_fsim; auto.
+  - apply all_visible_reqfree. apply (reqfree_canon R (erase S F) HC). apply reqfree_erase.
+  - apply erased_all_visible.
+Qed.
+
+(** ... and every lookup of the introspection view as well: all of C13's lookups *)
+Theorem rebuild_same_lookups_all S F r :
+  depth_ok S = true -> interfaces_declared_once S = true -> locations_known S = true ->
+  refs_defined S = true -> gating_nested S = true -> roots_visible S F = true ->
+  builtins_consistent S = true -> kinds_ok S = true -> scalars_accept_all S = true -> defaults_denote S ->
+  NoDup (map fst (types S)) -> FM.schema_ok (to_feat (registered S)) = true ->
+  introspect (print_default S) S F = IntroOk r ->
+  exists R, rebuild (map_defaults dflt_text r) = Some R /\
+    forall G q,
+      (forall h, In h (FM.handle_args q) -> FS.visible (to_feat (registered S)) F h = true) ->
+      ans_eq (FM.ask FM.fixed (to_feat R) G q) (FM.ask FM.fixed (to_feat (registered S)) F q).
+Proof.
+  intros H1 H2 H3 H4 H5 H6 H7 H8 H9 H10 Hnd Hok Hr.
+  destruct (rebuild_same_for_validation S F r H1 H2 H3 H4 H5 H6 H7 H8 H9 H10 Hr) as [R [HR HC]].
+  exists R. split; [exact HR|]. intros G q Hh.
+  rewrite (FP.view_erase_eq (to_feat (registered S)) F F q Hok (FP.subset_refl F) Hh).
+  apply ask_sim_all; auto.
   - eapply fsim_trans.
     + apply fsim_of_canon; [| apply nodup_names_erase | exact HC].
       apply (nodup_names_canon R (erase S F) HC). apply nodup_names_erase.
